@@ -28,6 +28,8 @@ SortAsc(s) == IF s = <<>> THEN <<>>
               ELSE LET m == CHOOSE k \in 1..Len(s) : \A j \in 1..Len(s) : s[k] <= s[j]
                    IN <<s[m]>> \o SortAsc(Del(s, m))
 
+\* the key of universe value v for keyed sorts (for the predicate store: the arity of F/1, F/2, G/1, H/2, G/2)
+SortKey == <<1, 2, 1, 2, 2>>
 \* 1-based positions selected by the named slices (python semantics)
 Min2(a, b) == IF a < b THEN a ELSE b
 SliceIdx(n, sl) ==
@@ -36,6 +38,11 @@ SliceIdx(n, sl) ==
     [] sl = ":2"  -> [k \in 1..Min2(2, n) |-> k]
     [] sl = "1:3" -> [k \in 1..(IF n >= 1 THEN Min2(2, n - 1) ELSE 0) |-> k + 1]
     [] sl = "::2" -> [k \in 1..((n + 1) \div 2) |-> 2 * k - 1]
+    \* negative steps (python: c[::-1], c[::-2], c[3:0:-2])
+    [] sl = "::-1" -> [k \in 1..n |-> n + 1 - k]
+    [] sl = "::-2" -> [k \in 1..((n + 1) \div 2) |-> n - 2 * (k - 1)]
+    [] sl = "3:0:-2" -> LET st == Min2(3, n - 1) IN        \* 0-based start, stop 0 exclusive
+                        [k \in 1..(IF st <= 0 THEN 0 ELSE (st + 1) \div 2) |-> st - 2 * (k - 1) + 1]
 SeqSet(q) == {q[k] : k \in 1..Len(q)}
 
 RECURSIVE DelAll(_, _)
@@ -111,6 +118,8 @@ Apply(Conflict, s, e) ==
                     THEN Ok(r)
                     ELSE Raise({s})
     [] e.op = "sort"    -> Ok(SortAsc(s))
+    \* sort(key = SortKey, reverse = True): descending by key, STABLE (equal keys keep their order, as list.sort does)
+    [] e.op = "sortkr"  -> Ok(SelectSeq(s, LAMBDA v : SortKey[v] = 2) \o SelectSeq(s, LAMBDA v : SortKey[v] = 1))
     [] e.op = "reverse" -> Ok(Rev(s))
     [] e.op = "clear"   -> Ok(<<>>)
     [] e.op = "copy"    -> Ok(s)
@@ -132,5 +141,7 @@ ObsFail(NV, o) ==
   ELSE IF \E v \in 1..NV : o.index[v] # (IF Has(o.list, v) THEN Pos(o.list, v) - 1 ELSE -1) THEN "IndexAgrees"
   ELSE IF o.getitem # o.list THEN "GetitemAgrees"
   ELSE IF o.rev # Rev(o.list) THEN "ReverseAgrees"
+  ELSE IF \E j \in 1..Len(o.slices) : o.slices[j].got # [k \in 1..Len(SliceIdx(Len(o.list), o.slices[j].sl)) |-> o.list[SliceIdx(Len(o.list), o.slices[j].sl)[k]]]
+       THEN "SliceReadAgrees"
   ELSE ""
 =============================================================================
